@@ -764,6 +764,33 @@ def main():
     emitl = lambda name, names: out.append("Definition %s : list Z := [%s].  (* %s *)" % (
         name, "; ".join(str(name_id(n)) for n in names), " ".join(names)))
 
+    # callee_forwarded_regs: which CALLEE_SAVED_REGS entries a CFI frame starts from.  Two recognised bodies:
+    #   literal: All => every entry; Some(which) => the entries whose NAME is in `which`
+    #   alias:   the entries for which <context>::register_is_valid(name, valid) holds (alias groups pinned above;
+    #            All => memoize_register(name).is_some(), checked here against CpuContext::REGISTERS / the aliases)
+    FWD_LITERAL = ("match valid { MinidumpContextValidity::All => CALLEE_SAVED_REGS.iter().copied().collect(), "
+                   "MinidumpContextValidity::Some(ref which) => CALLEE_SAVED_REGS .iter() .filter(|&reg| which.contains(reg)) .copied() .collect(), }")
+    FWD_ALIAS = ("let ctx = ArmContext::default(); CALLEE_SAVED_REGS .iter() .copied() "
+                 ".filter(|reg| ctx.register_is_valid(reg, valid)) .collect()")
+    squeeze = lambda t: "".join(re.sub(r"//[^\n]*", "", t).split())
+
+    def emit_fwd(key, s, saved, known_names):
+        m = one(s, r"fn callee_forwarded_regs\(valid: &MinidumpContextValidity\) -> HashSet<&'static str> \{\n(.*?)\n\}\n",
+                key + " callee_forwarded_regs", re.S)
+        body = squeeze(m.group(1))
+        if body == squeeze(FWD_LITERAL):
+            alias = False
+        elif body == squeeze(FWD_ALIAS):
+            alias = True
+            # validity All: register_is_valid = memoize_register(reg).is_some(); every listed name must be a register name
+            for n in saved:
+                if n not in known_names:
+                    die(key + ": CALLEE_SAVED_REGS entry %r is not a register name of the context (not forwarded from a fully valid context)" % n)
+        else:
+            die(key + ": callee_forwarded_regs has neither of the two shapes the model knows (literal name lookup / register_is_valid)")
+        out.append("Definition %s_fwd_alias : bool := %s.  (* callee_forwarded_regs: %s *)" % (
+            key, "true" if alias else "false", "register_is_valid (alias-aware)" if alias else "literal name lookup"))
+
     # ---- register width of each context type (context.rs)
     regw = {}
     for ty, key in (("CONTEXT_X86", "x86"), ("CONTEXT_AMD64", "amd64"), ("CONTEXT_ARM", "arm"),
@@ -773,11 +800,13 @@ def main():
     if regw["arm64"] != regw["arm64_old"]:
         die("arm64 / arm64_old register widths differ")
     # CpuContext::REGISTERS of each context type (the names a STACK CFI rule may read or write)
+    regs_of = {}
     for ty, key in (("CONTEXT_X86", "x86"), ("CONTEXT_AMD64", "amd64"), ("CONTEXT_ARM", "arm"),
                     ("CONTEXT_ARM64", "arm64"), ("CONTEXT_ARM64_OLD", "arm64_old"), ("CONTEXT_MIPS", "mips")):
         m = one(ctxrs, r"impl CpuContext for md::%s \{\s*type Register = u(?:32|64);\s*const REGISTERS: &'static \[&'static str\] = &\[([^\]]*)\];" % ty,
                 "REGISTERS of " + ty)
         regs = strlist(m.group(1), "REGISTERS of " + ty)
+        regs_of[key] = regs
         if key == "arm64_old":
             if regs != arm64_regs:
                 die("arm64 / arm64_old REGISTERS differ")
@@ -823,6 +852,7 @@ def main():
             die(key + ": CpuContext sp/ip names differ from the unwinder's constants")
         m = one(s, r"const CALLEE_SAVED_REGS: &\[&str\] = &\[([^\]]*)\];", key + " CALLEE_SAVED_REGS")
         emitl(key + "_callee_saved", strlist(m.group(1), key + " CALLEE_SAVED_REGS"))
+        emit_fwd(key, s, strlist(m.group(1), key + " CALLEE_SAVED_REGS"), regs_of[key])
         m = one(s, r"if last_bp >= u(32|64)::MAX - POINTER_WIDTH \* (\d+) \{", key + " frame-pointer overflow guard")
         emit(key + "_fp_guard_words", int(m.group(2)), "last_bp >= MAX - POINTER_WIDTH * n")
         m = one(s, r"let default_scan_range = (\d+);\s*let extended_scan_range = default_scan_range \* (\d+);", key + " scan ranges")
@@ -879,6 +909,7 @@ def main():
         emit(key + "_cfi_ip_name", name_id(cfi_names[key][1]), cfi_names[key][1])
         m = one(s, r"const CALLEE_SAVED_REGS: &\[&str\] = &\[([^\]]*)\];", key + " CALLEE_SAVED_REGS")
         emitl(key + "_callee_saved", strlist(m.group(1), key + " CALLEE_SAVED_REGS"))
+        emit_fwd(key, s, strlist(m.group(1), key + " CALLEE_SAVED_REGS"), regs_of[key])
         m = one(s, r"if last_fp >= u(32|64)::MAX - POINTER_WIDTH \* (\d+) \{", key + " frame-pointer overflow guard")
         if int(m.group(1)) != regw[key]:
             die(key + " guard type")
@@ -911,6 +942,7 @@ def main():
         die("mips: CpuContext sp/ip names differ from the unwinder's constants")
     m = one(s, r"const CALLEE_SAVED_REGS: &\[&str\] = &\[([^\]]*)\];", "mips CALLEE_SAVED_REGS")
     emitl("mips_callee_saved", strlist(m.group(1), "mips CALLEE_SAVED_REGS"))
+    emit_fwd("mips", s, strlist(m.group(1), "mips CALLEE_SAVED_REGS"), regs_of["mips"])
     m = one(s, r"const MAX_STACK_SIZE: u32 = (\d+);\s*const MIN_ARGS: u32 = (\d+);\s*const POINTER_WIDTH: u32 = (\d+);", "mips32 constants")
     emit("mips32_max_stack", int(m.group(1)))
     emit("mips32_min_args", int(m.group(2)))
